@@ -133,6 +133,18 @@ pub fn main(args: &[String]) {
             reqs.push((req, Box::new(move || result_line(&run_file(&c2))), format!("family:{}-{}", kind, d)));
         }
     }
+    // (a'') the include-line family of the C10 oracle (what may share a line with an `include): same verdict and same output in model and implementation
+    {
+        let dir = "linefam";
+        for (name, top, _) in crate::ppo::include_line_cases() {
+            let case = gen_pp::Case { dir: dir.into(), files: vec![(format!("{}/{}.sv", dir, name), Some(top)), (format!("{}/f.svh", dir), Some("inc_tok\n".into()))], top: format!("{}/{}.sv", dir, name),
+                incpaths: vec![dir.into()], defines: vec![("A".into(), None)], strip: false, ignore: false, flags: vec!["include-line-family"] };
+            materialise(&root, &case);
+            let req = format!("ppfile 0 0 {} {} {} {}", hex(case.top.as_bytes()), enc_defines(&case.defines), hex(dir.as_bytes()), enc_fs(&case.files));
+            let c2 = case.clone();
+            reqs.push((req, Box::new(move || result_line(&run_file(&c2))), format!("family:include-line-{}", name)));
+        }
+    }
     // (b) the in-tree preprocessor testcases and some soups through preprocess_str (no includes resolvable: path prefix differs)
     let pps = corpus::pp_testcases();
     let mut texts: Vec<(String, String)> = pps.iter().filter(|x| !x.text.contains("`include")).map(|x| (x.text.clone(), format!("testcase:{}", x.name))).collect();
